@@ -61,11 +61,18 @@ func (pc *parentController) callHook(
 		return nil, nil
 	}
 
+	// Drop null entries; everything downstream dereferences the children.
+	children := response.Children[:0]
 	for _, child := range response.Children {
-		if child != nil && child.GetNamespace() == "" {
+		if child == nil {
+			continue
+		}
+		if child.GetNamespace() == "" {
 			child.SetNamespace(parent.GetNamespace())
 		}
+		children = append(children, child)
 	}
+	response.Children = children
 
 	return &response, nil
 }
